@@ -10,6 +10,7 @@ import MayVerif.Proof.Sync.Condvar.P_w6set
 import MayVerif.Proof.Sync.Condvar.P_w7load
 import MayVerif.Proof.Sync.Condvar.P_w8swap
 import MayVerif.Proof.Sync.Condvar.P_w9unlock
+import MayVerif.Proof.Sync.Condvar.P_wend
 import MayVerif.Proof.Sync.Condvar.P_wdone
 import MayVerif.Proof.Sync.Condvar.P_n0pop
 import MayVerif.Proof.Sync.Condvar.P_n1unpark
@@ -47,6 +48,7 @@ theorem inv_step (s s' : St) (t : Tid) (e : Env) (h : Inv s) (hs : step s t e = 
   | w7load b c => exact inv_w7load n sh pcs t e b c hlt h hpc sh' pc' hts
   | w8swap b c => exact inv_w8swap n sh pcs t e b c hlt h hpc sh' pc' hts
   | w9unlock => exact inv_w9unlock n sh pcs t e hlt h hpc sh' pc' hts
+  | wend d => exact inv_wend n sh pcs t e d hlt h hpc sh' pc' hts
   | wdone r => exact inv_wdone n sh pcs t e r hlt h hpc sh' pc' hts
   | n0pop k => exact inv_n0pop n sh pcs t e k hlt h hpc sh' pc' hts
   | n1unpark w k => exact inv_n1unpark n sh pcs t e w k hlt h hpc sh' pc' hts
